@@ -44,7 +44,8 @@ def fuzz_one(ctx, exe, target, runs, seed, workdir, corpus_root):
            "-print_final_stats=1", "-verbosity=1", "-reload=0", corpus, seeds]
     log = os.path.join(workdir, "fuzz-%s.log" % target)
     with open(log, "wb") as lf:
-        p = subprocess.Popen(cmd, stdout=lf, stderr=lf, env=env, start_new_session=True)
+        import driver
+        p = subprocess.Popen(cmd, stdout=lf, stderr=lf, env=env, start_new_session=True, preexec_fn=driver.big_stack)
         try:
             rc = p.wait(timeout=7200)
         except subprocess.TimeoutExpired:
